@@ -1286,10 +1286,13 @@ class VM:
             sep = "," if not args or args[0] is UNDEFINED else to_string(args[0])
             return sep.join(array_elem_to_string(elem) for elem in arr._elements)
 
+        def require_callable(value, what):
+            if not (isinstance(value, JSFunction) or callable(value)):
+                raise JSTypeError(f"{what} is not a function")
+            return value
+
         def map_fn(*args):
-            callback = args[0] if args else None
-            if not callback:
-                return JSArray()
+            callback = require_callable(args[0] if args else UNDEFINED, "map callback")
             result = JSArray()
             result._elements = []
             for i, elem in enumerate(arr._elements):
@@ -1298,9 +1301,7 @@ class VM:
             return result
 
         def filter_fn(*args):
-            callback = args[0] if args else None
-            if not callback:
-                return JSArray()
+            callback = require_callable(args[0] if args else UNDEFINED, "filter callback")
             result = JSArray()
             result._elements = []
             for i, elem in enumerate(arr._elements):
@@ -1310,10 +1311,8 @@ class VM:
             return result
 
         def reduce_fn(*args):
-            callback = args[0] if args else None
+            callback = require_callable(args[0] if args else UNDEFINED, "reduce callback")
             initial = args[1] if len(args) > 1 else UNDEFINED
-            if not callback:
-                raise JSTypeError("reduce callback is not a function")
             acc = initial
             start_idx = 0
             if acc is UNDEFINED:
@@ -1327,10 +1326,8 @@ class VM:
             return acc
 
         def reduceRight_fn(*args):
-            callback = args[0] if args else None
+            callback = require_callable(args[0] if args else UNDEFINED, "reduceRight callback")
             initial = args[1] if len(args) > 1 else UNDEFINED
-            if not callback:
-                raise JSTypeError("reduceRight callback is not a function")
             acc = initial
             length = len(arr._elements)
             start_idx = length - 1
@@ -1374,9 +1371,7 @@ class VM:
             return result
 
         def forEach_fn(*args):
-            callback = args[0] if args else None
-            if not callback:
-                return UNDEFINED
+            callback = require_callable(args[0] if args else UNDEFINED, "forEach callback")
             for i, elem in enumerate(arr._elements):
                 vm._call_callback(callback, [elem, i, arr])
             return UNDEFINED
@@ -1402,9 +1397,7 @@ class VM:
             return -1
 
         def find_fn(*args):
-            callback = args[0] if args else None
-            if not callback:
-                return UNDEFINED
+            callback = require_callable(args[0] if args else UNDEFINED, "find callback")
             for i, elem in enumerate(arr._elements):
                 val = vm._call_callback(callback, [elem, i, arr])
                 if to_boolean(val):
@@ -1412,9 +1405,7 @@ class VM:
             return UNDEFINED
 
         def findIndex_fn(*args):
-            callback = args[0] if args else None
-            if not callback:
-                return -1
+            callback = require_callable(args[0] if args else UNDEFINED, "findIndex callback")
             for i, elem in enumerate(arr._elements):
                 val = vm._call_callback(callback, [elem, i, arr])
                 if to_boolean(val):
@@ -1422,9 +1413,7 @@ class VM:
             return -1
 
         def some_fn(*args):
-            callback = args[0] if args else None
-            if not callback:
-                return False
+            callback = require_callable(args[0] if args else UNDEFINED, "some callback")
             for i, elem in enumerate(arr._elements):
                 val = vm._call_callback(callback, [elem, i, arr])
                 if to_boolean(val):
@@ -1432,9 +1421,7 @@ class VM:
             return False
 
         def every_fn(*args):
-            callback = args[0] if args else None
-            if not callback:
-                return True
+            callback = require_callable(args[0] if args else UNDEFINED, "every callback")
             for i, elem in enumerate(arr._elements):
                 val = vm._call_callback(callback, [elem, i, arr])
                 if not to_boolean(val):
@@ -1474,7 +1461,9 @@ class VM:
             return False
 
         def sort_fn(*args):
-            comparator = args[0] if args else None
+            comparator = args[0] if args else UNDEFINED
+            if comparator is not UNDEFINED:
+                require_callable(comparator, "sort comparator")
 
             # Default string comparison
             def default_compare(a, b):
@@ -1496,9 +1485,7 @@ class VM:
                 if b is UNDEFINED:
                     return -1
                 # Use comparator if provided
-                if comparator and (
-                    callable(comparator) or isinstance(comparator, JSFunction)
-                ):
+                if comparator is not UNDEFINED:
                     result = vm._call_callback(comparator, [a, b])
                     # Convert to integer for cmp_to_key
                     num = to_number(result) if result is not UNDEFINED else 0
